@@ -43,6 +43,16 @@ def cases(draw):
 
     left = [img() for _ in range(nb)]
     right = [img() for _ in range(nb)]
+    if draw(st.integers(0, 3)) == 0:
+        # a flat (saturated) patch at least one window wide in ONE of the two images: zero variance on one side only
+        side = draw(st.sampled_from([left, right]))
+        r0, c0 = draw(st.integers(0, H - w)), draw(st.integers(0, W - w))
+        h_, w_ = draw(st.integers(w, H - r0)), draw(st.integers(w, W - c0))
+        v = draw(px)
+        for b_ in range(nb):
+            for r_ in range(r0, r0 + h_):
+                for c_ in range(c0, c0 + w_):
+                    side[b_][r_][c_] = v
     conv = draw(st.sampled_from([(0, 1), (0, 1), (5, 7)]))
     oversize = draw(st.sampled_from([False] * 24 + [True]))
     lim = max(0, W - w)
